@@ -9,8 +9,9 @@ from autobean_refactor.models import base as mbase
 
 D = decimal.Decimal
 CASES = {'quick': 8000, 'thorough': 120000}
+SMALL_BLOCKS = 4      # runner: every 4th case keeps its stores in 2..10-token blocks
 GATES = {
-    'quick': {'evaluations': 5000, 'refused_calls_judged': 4500, 'site:attached-node-in-batch': 400, 'site:attached-node-single': 500,
+    'quick': {'cases_in_small_blocks': 50, 'evaluations': 5000, 'refused_calls_judged': 4500, 'site:attached-node-in-batch': 400, 'site:attached-node-single': 500,
               'site:index-or-key': 700, 'site:size-mismatch': 200, 'site:raw-text': 300, 'site:cost-combination': 100, 'site:cost-attached': 100,
               'site:arithmetic-attached': 200, 'site:claim-refused': 300, 'site:payee-attached': 50, 'site:store-foreign-token': 100,
               'site:whole-store-child': 50, 'batch_positions_seen': 3},
